@@ -808,6 +808,48 @@ pub fn join(depth: usize) -> Value {
             }
         }
     }
+    // joins on TWO and on THREE equalities (the optimizer turns them into hash joins with key LISTS: the i-th left key must meet
+    // the i-th right key): key columns whose values are permutations of each other, so that a key list in the wrong order joins
+    // the wrong rows; NULL in any key column matches nothing
+    for e in [Engine::Mem, Engine::Disk { block: 24, rowset: 1 }] {
+        let l3: Vec<Row> = vec![vec![Some(1), Some(2), Some(3), Some(10)], vec![Some(1), Some(3), Some(2), Some(11)], vec![Some(2), Some(2), Some(2), Some(12)],
+                                vec![Some(3), None, Some(1), Some(13)], vec![Some(4), Some(5), Some(6), Some(14)]];
+        let r3: Vec<Row> = vec![vec![Some(1), Some(2), Some(3), Some(20)], vec![Some(1), Some(2), Some(2), Some(21)], vec![Some(2), Some(2), Some(2), Some(22)],
+                                vec![Some(3), None, Some(1), Some(23)], vec![Some(6), Some(5), Some(4), Some(24)], vec![Some(1), Some(3), Some(2), Some(25)]];
+        let mut sqls = vec!["create table l3(a int, b int, c int, t int)".to_string(), "create table r3(x int, y int, z int, u int)".to_string()];
+        sqls.push(insert("l3", &l3)); sqls.push(insert("r3", &r3));
+        let q0 = sqls.len();
+        let eqv = |p: V, q: V| match (p, q) { (Some(a), Some(c)) => Some(a == c), _ => None };
+        let on3 = |x: &Row, y: &Row| and3(and3(eqv(x[0], y[0]), eqv(x[1], y[1])), eqv(x[2], y[2]));
+        let on2 = |x: &Row, y: &Row| and3(eqv(x[1], y[1]), eqv(x[2], y[2]));
+        let on3x = |x: &Row, y: &Row| and3(and3(eqv(x[0], y[2]), eqv(x[1], y[1])), eqv(x[2], y[0]));
+        let oracle = |kind: &str, on: &dyn Fn(&Row, &Row) -> Option<bool>| -> Vec<Vec<String>> {
+            let mut out: Vec<Row> = vec![];
+            let mut rm = vec![false; r3.len()];
+            for x in &l3 {
+                let mut any = false;
+                for (j, y) in r3.iter().enumerate() { if on(x, y) == Some(true) { any = true; rm[j] = true; out.push(vec![x[3], y[3]]); } }
+                if !any && (kind == "left" || kind == "full") { out.push(vec![x[3], None]); }
+            }
+            if kind == "right" || kind == "full" { for (j, y) in r3.iter().enumerate() { if !rm[j] { out.push(vec![None, y[3]]); } } }
+            sorted(strs(&out))
+        };
+        let mut wants: Vec<Vec<Vec<String>>> = vec![];
+        for kind in ["inner", "left", "right", "full"] {
+            sqls.push(format!("select t, u from l3 {kind} join r3 on a = x and b = y and c = z")); wants.push(oracle(kind, &on3));
+            sqls.push(format!("select t, u from l3 {kind} join r3 on b = y and c = z")); wants.push(oracle(kind, &on2));
+            sqls.push(format!("select t, u from l3 {kind} join r3 on a = z and b = y and c = x")); wants.push(oracle(kind, &on3x));
+        }
+        tried += wants.len() as u64;
+        let outs = match run(e, &sqls, &[]) { Ok(o) => o, Err(err) => return found_raw(tried, e, &sqls, &[], sqls.len() - 1, "the session (multi-key joins) to run".into(), err) };
+        for (j, want) in wants.iter().enumerate() {
+            match &outs[q0 + j] {
+                Ok(got) if sorted(got.clone()) == *want => {}
+                Ok(got) => { if let Some(v) = found(tried, e, &sqls, &[], q0 + j, format!("{want:?}"), format!("{:?}", sorted(got.clone()))) { return v; } },
+                Err(err) => { if let Some(v) = found(tried, e, &sqls, &[], q0 + j, format!("{want:?}"), format!("error: {err}")) { return v; } },
+            }
+        }
+    }
     done(tried)
 }
 
